@@ -176,6 +176,32 @@ def obligations(tier, seed):
                       inputs=[(c1, 'a'), (c2, 'b')], body=body,
                       contract='forall a:%s (whole range), b:%s bounded: (%s_pt(a) - %s_pt(b)) in 1/%d K is the exact displacement (computed in the common rep %s)' % (c1, c2, s1, t1, FINE, cc),
                       functions_under_contract=('au::operator-(QuantityPoint<U1,R1>, QuantityPoint<U2,R2>)',)))
+    # ---- point +/- quantity with DIFFERENT reps (and units): the quantity must be widened to the common rep BEFORE it is negated or scaled
+    smixed = [('K', 'K', 'i64', 'u32'), ('C', 'mK', 'i64', 'u32'), ('K', 'mK', 'i32', 'i64'), ('mK', 'K', 'u64', 'u32')]
+    if tier == 'thorough': smixed += [('F', 'C', 'i64', 'u16'), ('X1', 'X2', 'i64', 'i16'), ('C', 'K', 'i32', 'u8')]
+    for (s1, t1, r1, r2) in smixed:
+        c1, c2 = G.ctype(r1), G.ctype(r2)
+        CR = G.common(r1, r2); cc = G.ctype(CR)
+        tag = '%s_%s_%s_%s' % (s1, t1, r1, r2)
+        p1 = 'au::make_quantity_point<%s>(a)' % PT[s1]['ty']; q2 = 'au::make_quantity<%s>(b)' % PT[t1]['ty']
+        P1 = '((i128)a * %s + %s)' % (G.lit(int(PT[s1]['u'] * FINE)), G.lit(int(PT[s1]['o'] * FINE)))
+        Q2 = '((i128)b * %s)' % G.lit(int(PT[t1]['u'] * FINE))
+        rng = lambda v, r: '1' if G.REPS[r]['bits'] <= 32 else '(%s >= %s && %s <= 1000000000)' % (v, '0' if not G.REPS[r]['signed'] else '-1000000000', v)
+        pre_c = '%s && %s' % (rng('a', r1), rng('b', r2))
+        for (expr, sign, nm, fn) in (('%s + %s' % (p1, q2), '+', 'point-plus-quantity', 'au::operator+(QuantityPoint, Quantity)'),
+                                     ('%s + %s' % (q2, p1), '+', 'quantity-plus-point', 'au::operator+(Quantity, QuantityPoint)'),
+                                     ('%s - %s' % (p1, q2), '-', 'point-minus-quantity', 'au::operator-(QuantityPoint, Quantity)')):
+            w = Wrapper('w_sm_%s_%s' % (nm.replace('-', ''), tag), cc, [(c1, 'a'), (c2, 'b')], 'return (%s).coerce_in(%s{});' % (expr, fine_ty))
+            nonneg = ' && (%s %s %s) >= 0' % (P1, sign, Q2) if not G.REPS[CR]['signed'] else ''
+            body = '''
+  ASSUME(%s%s);
+  CHECK((i128)%s(a, b) == %s %s %s, "%s-shifts-by-exactly-that-displacement");
+''' % (pre_c, nonneg, w.name, P1, sign, Q2, nm)
+            obs.append(Ob(id='C09.shift-mixedrep.%s.%s' % (nm, tag), prop='C09', group='C09.psm.%s' % tag, prelude=prelude(s1, t1) + '\n//--\n' + fine_pre,
+                          wrappers=[w], inputs=[(c1, 'a'), (c2, 'b')], body=body,
+                          contract='forall a:%s, b:%s (narrow operand over its whole range, wide one bounded): %s of %s_pt(a) and %s_qty(b), read in 1/%d K in the common rep %s, is the point at '
+                                   'absolute position a*u1 + o1 %s b*u2' % (c1, c2, nm, s1, t1, FINE, cc, sign),
+                          functions_under_contract=(fn,)))
     # ---- floating reps: a NaN position is unordered (every ordering comparison false, != true), mixed units and same unit
     for (s1, t1, rep) in (('C', 'K', 'f64'), ('F', 'F', 'f32'), ('K', 'mK', 'f32')):
         ct = G.ctype(rep)
